@@ -347,10 +347,53 @@ func (e *Enc) modularCall(fr *Frame, st *State, c *FuncContract, names []string,
 		e.specOblige(st, "pre@call:"+cname, cl.E, env, "precondition of "+calleeName+": "+cl.Src, cl.Props)
 	}
 	e.flush(st)
+	// closures handed to a callee that may run them (modifies captured(f)): their callback
+	// invariants must hold now and are assumed after the call
+	var cbs []*SpecEnv
+	var cbcs []*FuncContract
+	if contractMentionsCaptured(c) {
+		for _, a := range args {
+			if a == nil || a.Fn == nil {
+				continue
+			}
+			cf := a.Fn.(*ssa.Function)
+			cc := e.w.contractFor(cf)
+			if cc == nil || len(cc.CbInv) == 0 {
+				e.note("closure %s is handed to %s without a callback invariant: the captured variables are arbitrary afterwards", cf.Name(), calleeName)
+				continue
+			}
+			cfr := &Frame{fn: cf, vals: map[ssa.Value]*Val{}}
+			for i, fv := range cf.FreeVars {
+				if i < len(a.Bind) {
+					cfr.vals[fv] = a.Bind[i]
+				}
+			}
+			cenv := &SpecEnv{e: e, cur: st, old: st, vars: map[string]*Val{}, pkg: funcPkgPath(cf), fr: cfr}
+			if site != nil && site.Block() != nil {
+				cenv.outer = e.specEnv(fr, st, site.Block())
+			}
+			for _, cl := range cc.CbInv {
+				e.specOblige(st, "cbinv-entry:"+cname, cl.E, cenv, "callback invariant of "+cf.Name()+" holds when it is handed to "+calleeName+": "+cl.Src, cl.Props)
+			}
+			cbs = append(cbs, cenv)
+			cbcs = append(cbcs, cc)
+		}
+		e.flush(st)
+	}
 	old = st.clone()
 	env.old = old
 	// frame
 	e.applyModifies(st, old, c, env)
+	for i, cenv := range cbs {
+		cenv.cur = st
+		cenv.old = st
+		if cenv.outer != nil {
+			cenv.outer = cenv.outer.with(st)
+		}
+		for _, cl := range cbcs[i].CbInv {
+			e.specAssume(st, cl.E, cenv)
+		}
+	}
 	na := e.s.Fresh("alloc", "Int")
 	e.assume(st, fmt.Sprintf("(<= %s %s)", st.alloc, na))
 	st.alloc = na
@@ -964,4 +1007,13 @@ func (e *Enc) contractWriteSet(c *FuncContract, names []string, tys []types.Type
 	for _, t := range e.modTargets(c, env) {
 		ws.whole(t.comp, t.sort)
 	}
+}
+
+func contractMentionsCaptured(c *FuncContract) bool {
+	for _, m := range c.Modifies {
+		if strings.Contains(m.Src, "captured(") {
+			return true
+		}
+	}
+	return false
 }
